@@ -26,6 +26,7 @@ import (
 	"bufio"
 	"bytes"
 	"context"
+	"encoding/binary"
 	"errors"
 	"fmt"
 	"io"
@@ -44,6 +45,7 @@ import (
 	"github.com/mgtv-tech/redis-GunYu/config"
 	pb "github.com/mgtv-tech/redis-GunYu/pkg/api/golang"
 	"github.com/mgtv-tech/redis-GunYu/pkg/cluster"
+	"github.com/mgtv-tech/redis-GunYu/pkg/digest"
 	"github.com/mgtv-tech/redis-GunYu/pkg/log"
 	"github.com/mgtv-tech/redis-GunYu/pkg/store"
 	usync "github.com/mgtv-tech/redis-GunYu/pkg/sync"
@@ -474,6 +476,18 @@ func c16SnapBytes(id string, left int64) []byte {
 	b := make([]byte, n)
 	for i := range b {
 		b[i] = byte(c16Mix(uint64(left)*1000003+uint64(i))>>8) ^ c16Masks[id] ^ 0x5a
+	}
+	if n > 8 {
+		// an RDB file ends with the little-endian CRC64 of everything before it: a VERIFYING snapshot reader
+		// (channel.verifyCrc: true) accepts the oracle's snapshots (files of up to 8 bytes are not checked)
+		h := digest.New()
+		h.Write(b[:n-8])
+		if h.Sum64() == 0 {
+			b[0] ^= 1
+			h.Reset()
+			h.Write(b[:n-8])
+		}
+		binary.LittleEndian.PutUint64(b[n-8:], h.Sum64())
 	}
 	return b
 }
@@ -981,16 +995,30 @@ func (c *c16LChan) NewReader(o Offset) (ChannelReader, error) {
 		// the leader runs with channel.verifyCrc: true (a process-wide option: StoreChannel.NewReader reads it
 		// from the configuration; here per session): every segment its reader opens — the first one and each
 		// one it FOLLOWS INTO across a rotation, closed or still being written — goes through the CRC check first
-		// (stream readers only: the history oracle's snapshots carry no CRC64 footer, a verifying snapshot reader refuses them)
+		// The oracle's generated snapshots end with a valid CRC64 footer: a verifying snapshot reader accepts them;
+		// hand-written corpus snapshots do not (refused: the plain reader is used, counted).
 		var sr *store.Reader
 		sr, err = sc.storer.GetReader(o.Offset, true)
-		if err == nil && sr.IsAof() {
+		if err == nil {
 			rd = sr
-		} else {
-			if err == nil {
-				sr.Close()
+			c.ss.mu.Lock()
+			if sr.IsAof() {
+				c.ss.vcrcAof = true
+			} else {
+				c.ss.vcrcRdb = true
 			}
+			c.ss.mu.Unlock()
+		} else {
 			rd, err = c.Channel.NewReader(o)
+			if err == nil {
+				c.ss.mu.Lock()
+				if rd.IsAof() {
+					c.ss.vcrcAofRefused = true
+				} else {
+					c.ss.vcrcRdbRefused = true
+				}
+				c.ss.mu.Unlock()
+			}
 		}
 	} else {
 		rd, err = c.Channel.NewReader(o)
@@ -1269,6 +1297,7 @@ type c16Sess struct {
 	w0       int    // writers the follower's channel had created when the session began
 	unsynced bool   // round.FStop: the follower did not open the writer of the announced transfer within the limit
 	vcrc     bool   // the leader's disk channel reads with verifyCrc on (3 of 4 sessions, by a hash of the round)
+	vcrcAof, vcrcRdb, vcrcAofRefused, vcrcRdbRefused bool // … a verifying stream / snapshot reader was opened / refused (the plain one used)
 }
 
 func (ss *c16Sess) hook(point int) {
@@ -1452,13 +1481,16 @@ func (w *c16Srv) Send(r *pb.SyncResponse) error {
 		ss.reads[ss.rpc] = append(ss.reads[ss.rpc], int(r.GetSize()))
 		ss.mu.Unlock()
 	}
-	if ss.round.Split > 0 && r.GetCode() == pb.SyncResponse_CONTINUE && len(r.GetData()) > 1 {
+	if ss.round.Split != 0 && r.GetCode() == pb.SyncResponse_CONTINUE && len(r.GetData()) > 1 {
 		// what sendData emits had ioReader.Read returned smaller pieces
 		data := r.GetData()
 		start := r.GetOffset() - int64(len(data))
 		for len(data) > 0 {
 			ss.mu.Lock()
-			k := 1 + ss.rnd.Intn(ss.round.Split)
+			k := -ss.round.Split // Split < 0: pieces of exactly that many bytes (the last one shorter)
+			if ss.round.Split > 0 {
+				k = 1 + ss.rnd.Intn(ss.round.Split)
+			}
 			ss.mu.Unlock()
 			if k > len(data) {
 				k = len(data)
@@ -2305,6 +2337,38 @@ func (x *c16Ctx) runCase(t *testing.T, srv *c16Server, c c16Case, src string) (u
 		if ss.vcrc {
 			s.Count("leader_verifycrc")
 		}
+		// ---- configuration dimensions drawn (DIMENSION_AUDIT): one counter per option value
+		s.Count("cfg_follower_backend_" + c.Bk)
+		s.Count("cfg_leader_backend_" + c.Bk)
+		s.Count(fmt.Sprintf("cfg_logsize_%d", c.LogSize))
+		if c.Bk == "d" {
+			s.Count("cfg_verifycrc_" + c16B(ss.vcrc))
+		}
+		ss.mu.Lock()
+		for k, v := range map[string]bool{"cfg_verifycrc_stream_reader": ss.vcrcAof, "cfg_verifycrc_snapshot_reader": ss.vcrcRdb,
+			"verifycrc_stream_refused": ss.vcrcAofRefused, "verifycrc_snapshot_refused": ss.vcrcRdbRefused} {
+			if v {
+				s.Count(k)
+			}
+		}
+		ss.mu.Unlock()
+		if src == "metacut" && ri == 0 && len(res.msgs) == 2 && res.msgs[1].GetCode() == pb.SyncResponse_META {
+			s.Count("cut_after_meta_then_restart")
+		}
+		switch {
+		case r.Split == 0:
+			s.Count("cfg_chunk_as_read")
+		case r.Split > 0:
+			s.Count(fmt.Sprintf("cfg_chunk_upto_%d", r.Split))
+		case int64(-r.Split) == c.LogSize:
+			s.Count("cfg_chunk_exact_logsize")
+		case int64(-r.Split) == c.LogSize+1:
+			s.Count("cfg_chunk_exact_logsize_plus_1")
+		case int64(-r.Split) == c.LogSize-16:
+			s.Count("cfg_chunk_exact_segment_payload")
+		default:
+			s.Count("cfg_chunk_exact_other")
+		}
 		s.Count("bk_" + c.Bk)
 		s.Count("src_" + src)
 		s.Count("end_" + res.stage + "_" + res.cls)
@@ -2321,6 +2385,188 @@ func (x *c16Ctx) runCase(t *testing.T, srv *c16Server, c c16Case, src string) (u
 		before = after
 	}
 	return
+}
+
+// the plain route of cmd/syncer_api.go: every request of every follower goes to the one syncer's ServiceReplica
+type c16PlainSrv struct {
+	pb.UnimplementedApiServiceServer
+	sy *syncer
+}
+
+func (p *c16PlainSrv) Sync(req *pb.SyncRequest, stream pb.ApiService_SyncServer) error {
+	return p.sy.ServiceReplica(req, stream)
+}
+
+// twoFollowers: one real leader (disk with verifyCrc readers, small LogSize, small MaxSize and collector passes; or
+// memory), TWO real followers (one disk, one memory; one starting empty, one holding a prefix) running at the same
+// time while the leader's input goes on appending. No model op: monitors only — whatever each follower holds under
+// the id is the history's bytes at those offsets, and both reach the leader's end.
+func (x *c16Ctx) twoFollowers(t *testing.T, r *vfutil.Rand, i int) {
+	s := x.s
+	bk := []string{"d", "m"}[i%2]
+	logSize := int64(vfutil.Pick(r, []int{40, 64, 200}))
+	base := int64(r.Range(100, 4000))
+	n0, n1, n2 := int64(r.Range(300, 1500)), int64(r.Range(200, 1200)), int64(r.Range(200, 1200))
+	id := "idA"
+	replay := map[string]interface{}{"case": fmt.Sprintf("two-followers bk=%s logsize=%d base=%d n=%d+%d+%d", bk, logSize, base, n0, n1, n2)}
+	ldir := t.TempDir()
+	var lch Channel
+	small := false
+	if bk == "d" {
+		small = i%4 == 0 || r.Bool() // (forced for the first disk leader of a run)
+		max := int64(1 << 40)
+		if small {
+			max = 6 * logSize // the collector keeps about six segments: a follower that lags is cut off
+		}
+		lch = NewStoreChannel(StorerConf{InputId: "vf", Dir: ldir, MaxSize: max, LogSize: logSize})
+	} else {
+		lch = c16NewChannel(bk, ldir, logSize)
+	}
+	defer lch.Close()
+	if err := lch.SetRunId(id); err != nil {
+		s.Count("skip_two_followers")
+		return
+	}
+	closeW, appendW, err := c16FillW(lch, c16MkData(id, base, base+n0, false), true)
+	if err != nil {
+		s.Count("skip_two_followers")
+		return
+	}
+	defer closeW()
+	input := &c16Input{ids: []string{id}}
+	lss := &c16Sess{vcrc: bk == "d"}
+	leader := NewReplicaLeader(input, &c16LChan{Channel: lch, hook: func(int) {}, ss: lss})
+	leader.Start()
+	sy := &syncer{logger: log.WithLogger("[vf-syncer2] "), wait: usync.NewWaitCloser(nil), leader: leader, role: SyncerRoleLeader, state: SyncerStateRun}
+	lis, err := net.Listen("tcp", "127.0.0.1:0")
+	if err != nil {
+		s.Count("skip_two_followers")
+		return
+	}
+	gs := grpc.NewServer()
+	pb.RegisterApiServiceServer(gs, &c16PlainSrv{sy: sy})
+	go gs.Serve(lis)
+	defer gs.Stop()
+	defer sy.wait.Close(nil)
+
+	type fol struct {
+		bk  string
+		dir string
+		ch  Channel
+		f   *c16Follower
+	}
+	var fs []*fol
+	for k, fbk := range []string{"d", "m"} {
+		st := c16Store{}
+		if k == i%2 { // one of the two already holds a prefix
+			st = c16Store{Cur: id, Dirs: []c16Entry{{id, c16MkData(id, base, base+int64(r.Range(1, int(n0))), false)}}}
+		}
+		dir := t.TempDir()
+		ch, err := c16BuildFollower(fbk, dir, logSize, st)
+		if err != nil {
+			s.Count("skip_two_followers")
+			return
+		}
+		defer ch.Close()
+		fs = append(fs, &fol{bk: fbk, dir: dir, ch: ch})
+	}
+	for _, f := range fs {
+		f.f = c16StartFollower(f.ch, lis.Addr().String())
+	}
+	// Run pauses after an error (a follower cut off by the collector starts over): let it go on at once
+	stopPump := make(chan struct{})
+	for _, f := range fs {
+		go func(f *c16Follower) {
+			for {
+				select {
+				case <-f.w.pauses:
+					select {
+					case f.w.resume <- struct{}{}:
+					case <-stopPump:
+						return
+					}
+				case <-stopPump:
+					return
+				}
+			}
+		}(f.f)
+	}
+	reached := func(right int64) bool {
+		return c16Wait(func() bool {
+			for _, f := range fs {
+				if _, rr := f.ch.GetOffsetRange(id); rr < right {
+					return false
+				}
+			}
+			return true
+		}, c16Patience)
+	}
+	gc := func() {
+		if sc, ok := lch.(*StoreChannel); ok && small {
+			sc.storer.VerifGcLog()
+			s.Count("leader_collector_pass_during_transfer")
+		}
+	}
+	right := base + n0
+	ok := true
+	for _, more := range []int64{n1, n2} { // the input appends in pieces while both handlers tail; the collector runs in between
+		for off := int64(0); off < more; {
+			k := int64(r.Range(1, int(2*logSize)))
+			if off+k > more {
+				k = more - off
+			}
+			if err := appendW(c16HistSeg(id, right+off, right+off+k)); err != nil {
+				s.Count("skip_two_followers")
+				ok = false
+				break
+			}
+			off += k
+			if r.Chance(1, 3) {
+				gc()
+			}
+		}
+		if !ok {
+			break
+		}
+		right += more
+		gc()
+		if !reached(right) {
+			ok = false
+			s.Count("skip_two_followers_not_reached") // infrastructure limit: not a verdict
+			break
+		}
+	}
+	close(stopPump)
+	for _, f := range fs {
+		f.f.stop()
+	}
+	if !ok {
+		return
+	}
+	for _, f := range fs {
+		st, problems, _ := c16Observe(f.bk, f.ch, f.dir, false)
+		for _, p := range problems {
+			s.Violate("follower-not-contiguous", "two followers: "+p, replay)
+		}
+		d, _ := st.get(id)
+		if d == nil || d.right() != right {
+			s.Violate("two-followers-not-at-leader-end", fmt.Sprintf("follower(%s) holds %v, the leader's end is %d", f.bk, d, right), replay)
+			continue
+		}
+		if want := c16HistSeg(id, d.Base, d.right()); !bytes.Equal(d.Bytes, want) {
+			s.Violate("follower-bytes-differ", fmt.Sprintf("two followers: follower(%s) [%d,%d) differs from the history", f.bk, d.Base, d.right()), replay)
+		}
+		for _, e := range st.Dirs {
+			if e.Id != id && e.D != nil {
+				s.Violate("follower-bytes-differ", fmt.Sprintf("two followers: follower(%s) holds data under another id %s", f.bk, e.Id), replay)
+			}
+		}
+	}
+	s.Count("two_followers_runs")
+	s.Count("cfg_two_followers_leader_" + bk)
+	if small {
+		s.Count("cfg_leader_maxsize_small")
+	}
 }
 
 func c16Shape(l c16Leader) string {
@@ -2776,6 +3022,12 @@ func TestVerifC16(t *testing.T) {
 		s.Count("big_transfer")
 	}
 
+	// two followers at once on ONE leader (one handler goroutine each over the same channel, the same process-global
+	// metric vectors), the leader's input appending and rotating meanwhile, its collector running (small MaxSize)
+	for i := 0; i < vfutil.Scale(3, 12); i++ {
+		x.twoFollowers(t, r.Fork(), i)
+	}
+
 	// infrastructure / coverage conditions are not verdicts about the property: too many cases
 	// that could not be built fail the harness (the check reports a broken tie), classes
 	// that did not occur are evidence counters
@@ -2792,7 +3044,10 @@ func TestVerifC16(t *testing.T) {
 		"rel_leader-empty", "dynamic_leader", "end_meta_takeover", "end_meta_error", "end_rdb_cut", "end_aof_cut", "end_aof_eof", "end_rdb_eof",
 		"msg_CLEAR", "msg_FAILURE", "msg_FAULT", "ahead_answered_clear", "big_transfer", "leader_relabelled_mid_transfer",
 		"store_fault_rdb", "store_fault_aof", "store_fault_rename", "crash_restart", "reopen_with_tmp_snapshot", "end_rdb_wfail", "end_aof_wfail",
-		"follower_stopped_aof", "follower_stopped_rdb", "follower_stopped_quiescent"} {
+		"follower_stopped_aof", "follower_stopped_rdb", "follower_stopped_quiescent",
+		"cfg_verifycrc_1", "cfg_verifycrc_0", "cfg_verifycrc_stream_reader", "cfg_verifycrc_snapshot_reader", "cfg_chunk_exact_logsize",
+		"cfg_chunk_exact_logsize_plus_1", "cfg_chunk_exact_segment_payload", "cut_after_meta_then_restart", "two_followers_runs",
+		"leader_collector_pass_during_transfer", "cfg_leader_maxsize_small"} {
 		if s.Stats[k] == 0 {
 			s.Count("class_not_generated_" + k)
 			s.Stats["class_not_generated_"+k] = 1
@@ -2855,6 +3110,26 @@ func (x *c16Ctx) family(t *testing.T, srv *c16Server, c c16Case, r *vfutil.Rand,
 			cc.Rounds = append(cc.Rounds, c16Round{Ls: []c16Leader{c16Evolve(r, r0.Ls[0])}, Cut: -1, Quiet: true})
 		}
 		x.runCase(t, srv, cc, "stop")
+	}
+	// forced (not left to chance): CONTINUE pieces of EXACTLY LogSize, LogSize+1 and LogSize-16 bytes (a piece that
+	// fills the follower's segment to its limit / one byte over / exactly the payload a segment takes before it
+	// rotates), and a follower process that is restarted between the announcement (META) and the first chunk
+	if c.LogSize <= 200 {
+		cc := c
+		r0 := c.Rounds[0]
+		r0.Cut, r0.Quiet = -1, true
+		r0.Split = -int(vfutil.Pick(r, []int64{c.LogSize, c.LogSize + 1, c.LogSize - 16}))
+		cc.Rounds = []c16Round{r0}
+		x.runCase(t, srv, cc, "chunk")
+	}
+	if m > 2 {
+		cc := c
+		r0 := c.Rounds[0]
+		r0.Cut, r0.Quiet = 2, true // the handshake answer and the announcement of the transfer, nothing else
+		l2 := r0.Ls[0]
+		l2.Tail = nil
+		cc.Rounds = []c16Round{r0, {Ls: []c16Leader{l2}, Cut: -1, Quiet: true, Restart: c.Bk == "d"}}
+		x.runCase(t, srv, cc, "metacut")
 	}
 	// the FOLLOWER's own Stop() in the middle of a transfer (runFollower's `<-sy.wait.Done(); follower.Stop()`:
 	// the wait is closed, the connection closed, Stop waits for Run): Run returns nil, what was stored stays,
